@@ -8,15 +8,19 @@ two calls in one process, after unrelated earlier compilations, three separately
 HashMap seeds), the three library entry points, debug 0/1, language en/ja (bytes; logs up to the catalogue's
 wording), and - for sources using no randomness - the file written by the real command-line binary.
 Correspondence: the Gallina pipeline (a pure function of the source) vs lex/exec/generate, run in two separate
-process sets."""
+process sets; and the LANGUAGE stream: the pipeline models run with the message language ja (Compile.compile_lang true,
+Script.compile_script_lang true - the language is a field of the model state, props/C08.v proves that it reaches the
+log text only) vs lex/exec/generate on a song whose language was set to ja (`compile_lex_ja`): bytes AND log text equal,
+on sources that make every kind of log entry."""
 import concurrent.futures, json, os, re, shutil, subprocess, unicodedata
 import vlib, mmlgen
 
 COQ_TARGET = "props/C08.v"
 THEOREMS = ["C08_lookup_order_independent", "C08_lookup_spec", "C08_table_names_distinct", "C08_system_functions_order_free",
             "C08_iteration_order", "C08_reserved_is_membership", "C08_random_seeded", "C08_seed_orbit", "C08_draw_consumes",
-            "C08_write_sites"]
-DRIVERS = ["core"]
+            "C08_write_sites", "C08_text_relation", "C08_language_lexer", "C08_language_noninterference", "C08_language_only_in_log",
+            "C08_language_script_noninterference", "C08_language_script_only_in_log"]
+DRIVERS = ["core", "script"]
 RULE = ("sources: core-language programs, junk token soup, Japanese (sutoton) programs, /repo/samples and their mutations, "
         "programs using randomness (x.Random, Random(), RandomSelect, RandomSeed, RndTiming, sutoton '曖昧さ'), the corpus. "
         "Each source is compiled ~13 times: compile() in three separately spawned process sets (the third in reverse order), "
@@ -56,6 +60,37 @@ OTHERS = [
     "v.onCycle(10,20,30) l.onNote(48,24) q.onNote(10,50) M.onNote(1,2) cdefg v.Random=99 c",
 ]
 BAD = ("HANG", "ABORT", "MISSING")
+
+# ------------------------------------------------------------------------------------------------
+# the language stream: sources that write every kind of log entry (message kinds of sakura_message.rs in brackets)
+# ------------------------------------------------------------------------------------------------
+LANG_SOURCES = [
+    # unknown characters [UnknownChar, Near], the cap of lex_error [TooManyErrorsInLexer], the cap of the log itself
+    "c!de", "c ~ d % e", "cde !", "!" * 29 + " c", "!" * 30 + " c", "!" * 31 + " c", "!" * 40 + " c Foo", "c\n!\n~\n%\nd", "/ c", "c / d",
+    # unknown words [ScriptSyntaxError, Near]
+    "Foo c", "cde Unknown1 Bar2 e", "#X c", "Foo\nBar\n c", "Foo " * 120 + "c", "Foo " * 28 + "! ! ! ! ! c", "! " * 28 + "Foo Foo Foo ! c",
+    # missing parenthesis [MissingParenthesis]
+    "TR(1 c", "@(3 c", "Tempo(120 c", "#A={cde} #A(1 c", "TIME(1:1:0 c", "KeyShift(2 c", "Voice(3,1 c", "PRINT(1", "PRINT(1+2 c",
+    # wrong argument counts / runtime errors [RuntimeError, ErrorWrongArguments]
+    "SysEx= c", "SysEx=1,2 c RPN(1) TimeSignature(3,7) !", "TimeSignature(3) c", "TimeSignature(3,5) c", "RPN(1,2) c", "NRPN(1) c",
+    "TIME(1:2) c", "c\n\nSysEx= d\nRPN(1,2)", "[3 SysEx= c]", "Sub{ SysEx= c } d", "#M={RPN(1)} #M #M c",
+    # reserved names [ErrorDefineVariableIsReserved], redefinition [ScriptSyntaxWarning, ErrorRedfineFnuction]
+    "Str Tempo={c} c", "Str TR c", "Str c", "Str 1 c", "FUNCTION TR(){ c } c", "FUNCTION Tempo(A){ c } Foo",
+    "FUNCTION F(){ c } FUNCTION F(){ d } F()", "FUNCTION F(){ c } FUNCTION F(){ d } FUNCTION F(){ e } F() !",
+    # type mismatch [ErrorTypeMismatch], loop limit [LoopTooManyTimes], PRINT
+    "INT A=(1,2,3) PRINT(A)", "Int B=(1,2) Foo PRINT(B) !", "WHILE(1){ c16 }", "FOR(INT I=0;1;I++){ r16 }", "INT X=0 WHILE(1){ X++ } PRINT(X)",
+    "WHILE(1){ r32 } WHILE(1){ r32 } !", "PRINT(1) c", "INT A=1 PRINT(A)", "PRINT({abc}) PRINT(1+2*3) c", "Int A = MID({abc},1) PRINT(A)", "PRINT(SizeOf(1,2))",
+    "FOR(INT I=0;I<120;I++){ PRINT(I) } c", "FOR(INT I=0;I<99;I++){ PRINT(I) } ! Foo TR(1",
+    # "not supported" warnings and other texts without a message of the catalogue
+    "M.onCycle(1,2) c", "M.Sine(1,2,3) c", "M.onNoteWaveEx(1,2) c", "PT.onNoteSine(1,2) c", "c $ d", "$1{c} d", "$", "#U c #U", "Str A c A",
+    # nothing logged; a macro / PLAY part that logs at run time (lexed then, in the language of the song)
+    "cde", "l8 [4 cde] TR(2) v100 o4 'ceg'", "#A={c ! d} #A #A", "#A={Foo} [3 #A] c", "PLAY({c ! d},{e Foo}) g", "PLAY({TR(1 c},{SysEx= d})",
+    "#A={TimeSignature(3,5)} c #A d #A", "Sub{ ! } Foo {c ! d}4 Rhythm{b ! s}",
+]
+LANG_FRAGS = ["! ", "~ ", "Foo ", "Bar1 ", "#Q ", "TR(1 ", "@(2 ", "SysEx= ", "RPN(1) ", "TimeSignature(3,5) ", "TimeSignature(1) ", "TIME(1:2) ", "Str Tempo ",
+              "Str KeyShift={c} ", "M.onCycle(1) ", "M.Sine(1) ", "$ ", "$2{c} ", "#A={c ! } #A ", "PLAY({Foo c}) ", "\n", "\n", "// x\n", "/* a\nb */ ", "c ", "d4 ", "l8 ", "[2 e ] ", "'ce' "]
+LANG_SCRIPT_FRAGS = ["PRINT(1) ", "PRINT({a}) ", "INT A=(1,2) ", "INT B=2 PRINT(B) ", "WHILE(1){ r32 } ", "FOR(INT I=0;1;I++){ } ", "FUNCTION F(){ c } ", "FUNCTION F(){ d } ",
+                     "FUNCTION TR(){ } ", "PRINT(1 ", "! ", "Foo ", "c ", "\n", "IF(1){ ! }ELSE{ Foo } ", "FOR(INT J=0;J<3;J++){ PRINT(J) ! } "]
 
 
 # ------------------------------------------------------------------------------------------------
@@ -456,6 +491,77 @@ def run(ctx):
             if g != m:
                 ctx.disagree("compile (lex/exec/generate), two process sets", s, g[:300], m[:300])
                 break
+    language_stream(ctx)
+
+
+def language_stream(ctx):
+    """model(ja) vs implementation(ja): bytes and log text; and, on the implementation, the law the theorems state of the
+    model (same bytes and the same number of log entries in both languages)"""
+    rng = ctx.rng
+    scale = 1 if ctx.tier == "quick" else 10
+    srcs = list(LANG_SOURCES)
+    for _ in range(250 * scale):
+        srcs.append("".join(rng.choice(LANG_FRAGS) for _ in range(rng.randrange(1, 9))))
+    for _ in range(60 * scale):
+        srcs.append("".join(rng.choice(LANG_FRAGS) for _ in range(rng.randrange(25, 140))))      # the caps: 30 + 1 lexer errors, 100 entries, 4096 characters
+    for _ in range(120 * scale):
+        srcs.append("".join(rng.choice(LANG_SCRIPT_FRAGS) for _ in range(rng.randrange(1, 7))))
+    for _ in range(40 * scale):
+        s = mmlgen.core_program(rng, size=rng.choice([3, 6]))
+        for _ in range(rng.randrange(1, 4)):
+            k = rng.randrange(0, len(s) + 1)
+            while k < len(s) and s[k] not in " \n;|":
+                k += 1
+            s = s[:k] + " " + rng.choice(LANG_FRAGS) + s[k:]
+        srcs.append(s)
+    srcs = [s for s in dict.fromkeys(srcs) if s and "\x00" not in s]
+    enc = [vlib.enc_text(s) for s in srcs]
+    ja = ctx.impl(["compile_lex_ja\t%s" % e for e in enc], stall=30)
+    if any(r.startswith("UNKNOWN-KIND") for r in ja):
+        ctx.fatal("the harness does not know compile_lex_ja (stale build?)")
+    en = ctx.impl(["compile_lex\t%s" % e for e in enc], stall=30)
+    mc = ctx.model(["compile_core_ja\t%s" % e for e in enc], driver="core")
+    if any(r.startswith("UNKNOWN-KIND") for r in mc):
+        ctx.fatal("the core driver does not know compile_core_ja (stale build?)")
+    need = [i for i, m in enumerate(mc) if m.startswith("UNSUPPORTED")]
+    ms = dict(zip(need, ctx.model(["compile_script_ja\t%s" % enc[i] for i in need], driver="script", stall=120)))
+    cut = max_log_chars()
+    for i, s in enumerate(srcs):
+        g, m, which = ja[i], mc[i], "compile_lang true (core pipeline model)"
+        if m.startswith("UNSUPPORTED"):
+            m, which = ms[i], "compile_script_lang true (script-layer model)"
+        ctx.count("language correspondence", None)
+        if m.startswith("UNSUPPORTED") or m.startswith("OUTOFFUEL"):
+            ctx.unsupported += 1
+            ctx.dist["lang " + m[:24]] = ctx.dist.get("lang " + m[:24], 0) + 1
+        elif m.startswith("PANIC") or g in BAD or g == "PANIC":
+            ctx.dist["lang_correspondence_skipped"] = ctx.dist.get("lang_correspondence_skipped", 0) + 1
+        else:
+            k = "lang_model=" + which.split(" ")[0]
+            ctx.dist[k] = ctx.dist.get(k, 0) + 1
+            if g != m:
+                ctx.disagree("language ja: %s vs lex/exec/generate with set_language(\"ja\")" % which, s, g[:400], m[:400])
+            elif "\t" in g:
+                lg = vlib.dec_text(g.split("\t")[1])
+                ctx.count("language correspondence: log not empty", s if lg else None)
+                for _, j in catalogue():
+                    if j in lg:
+                        ctx.dist["lang_msg " + j[:12]] = ctx.dist.get("lang_msg " + j[:12], 0) + 1
+        # the law, on the implementation: same bytes, same number of entries
+        if g in BAD or en[i] in BAD:
+            continue
+        ctx.count("language law", None)
+        if (g == "PANIC") != (en[i] == "PANIC"):
+            ctx.oracle_fail("language: one language panics, the other does not (lex/exec/generate)", "compile_lex_ja\t%s" % enc[i], g[:300], en[i][:300], input_text=s)
+        elif g != "PANIC":
+            (gb, gl), (eb, el) = split2(g), split2(en[i])
+            if gb != eb:
+                ctx.oracle_fail("language: bytes with language ja differ from language en (lex/exec/generate)", "compile_lex_ja\t%s" % enc[i], gb, eb, input_text=s)
+            elif gl is not None and el is not None:
+                lj, le = vlib.dec_text(gl), vlib.dec_text(el)
+                if len(lj) < cut and len(le) < cut and prefixes(lj) != prefixes(le):
+                    ctx.oracle_fail("language: en and ja logs differ in the number of entries / [KIND](line) prefixes (lex/exec/generate)",
+                                    "compile_lex_ja\t%s" % enc[i], prefixes(lj), prefixes(le), input_text=s)
 
 
 def replay(ctx, obj):
